@@ -7,10 +7,12 @@ import (
 	"fmt"
 	"os"
 	"reflect"
+	"strings"
 	"time"
 	"unsafe"
 
 	z "github.com/Oudwins/zog"
+	"github.com/Oudwins/zog/parsers/zjson"
 )
 
 // ---------------------------------------------------------------------------
@@ -217,6 +219,72 @@ func cmdHeap(args []string) {
 				is2 = s.Validate(&d)
 			}
 			emit(heapObs{Site: "oneof-list-" + mode, Mode: mode, SchemaChanged: !reflect.DeepEqual(opts, []string{"a", "b"}), SecondSame: len(is1) == 0 && len(is2) == 1, InputSame: true, Note: fmt.Sprint(opts)})
+		}
+	}
+	// 3b. the parameters of a test belong to the schema: issues only borrow them. Handing issues back (Collect helpers) or
+	// swallowing them (Catch) must leave them intact, whoever allocated the map (the built-in test or the user)
+	for _, mode := range []string{"parse", "validate"} {
+		s := z.String().Min(3)
+		run := func() (string, z.ZogIssueList) {
+			d := "ab"
+			var is z.ZogIssueList
+			if mode == "parse" {
+				is = s.Parse("ab", &d)
+			} else {
+				is = s.Validate(&d)
+			}
+			if len(is) != 1 {
+				return fmt.Sprint("issues=", len(is)), is
+			}
+			return fmt.Sprint(is[0].Params, "|", is[0].Message), is
+		}
+		a, is := run()
+		z.Issues.CollectList(is)
+		b, is2 := run()
+		z.Issues.SanitizeListAndCollect(is2)
+		c, _ := run()
+		emit(heapObs{Site: "test-params-collect-" + mode, Mode: mode, SecondSame: a == b && b == c && strings.Contains(a, "min:3"), InputSame: true, Note: a + " / " + b + " / " + c})
+		pm := map[string]any{"k": 1, "min": 3}
+		cs := z.String().Min(3, z.Params(pm)).Catch("zzz")
+		for i := 0; i < 2; i++ {
+			d := "ab"
+			if mode == "parse" {
+				cs.Parse("ab", &d)
+			} else {
+				cs.Validate(&d)
+			}
+		}
+		emit(heapObs{Site: "test-params-catch-" + mode, Mode: mode, SchemaChanged: !reflect.DeepEqual(pm, map[string]any{"k": 1, "min": 3}), SecondSame: true, InputSame: true, Note: fmt.Sprint(pm)})
+	}
+	// 3c. a schema remembers nothing about the source of an earlier call: the same schema and destination type, first through
+	// one front end, then through another whose keys differ
+	{
+		type tagged struct {
+			Name string `json:"n_json" zog:"n_zog"`
+		}
+		for _, first := range []string{"json", "map"} {
+			s := z.Struct(z.Schema{"name": z.String().Required()})
+			viaJSON := func() (string, int) {
+				var d tagged
+				m := s.Parse(zjson.Decode(strings.NewReader(`{"n_json":"fromjson"}`)), &d)
+				return d.Name, len(m)
+			}
+			viaMap := func() (string, int) {
+				var d tagged
+				m := s.Parse(map[string]any{"n_zog": "frommap"}, &d)
+				return d.Name, len(m)
+			}
+			var n1, n2 string
+			var i1, i2 int
+			if first == "json" {
+				n1, i1 = viaJSON()
+				n2, i2 = viaMap()
+			} else {
+				n1, i1 = viaMap()
+				n2, i2 = viaJSON()
+			}
+			ok := i1 == 0 && i2 == 0 && n1 == "from"+first && n2 != n1 && n2 != ""
+			emit(heapObs{Site: "front-end-switch-" + first + "-first", Mode: "parse", SecondSame: ok, InputSame: true, Note: fmt.Sprint(n1, i1, "/", n2, i2)})
 		}
 	}
 	// 4. Parse never modifies (or shares memory with) its input
